@@ -138,6 +138,14 @@ KERNELS = [
     dict(name="shrink_mutation", file="utils/mutations.py", func="shrink_mutation",
          params=[("tree", "Tree"), ("uniset", "Opaque"), ("proba", "Int"), ("max_level", "Int")], ret="Tree", streams=True,
          tree_calls={"get_args_id": "find_id_args_from_i", "subtree": "Tree_subtree", "concat": "Tree_concat"}),
+    # ---- Tree.get_levels / get_max_level and the Python-level GP crossover standard_crossover (two parents: `individs[0]`, `individs[1]`)
+    dict(name="Tree_get_levels", file="base/_tree.py", cls="Tree", func="get_levels", params=[("index", "Int")], ret="Arr",
+         self_tree=True, uses=["get_levels_tree_from_i"]),
+    dict(name="Tree_get_max_level", file="base/_tree.py", cls="Tree", func="get_max_level", params=[], ret="Int",
+         self_tree=True, tree_methods={"get_levels": "Tree_get_levels"}),
+    dict(name="standard_crossover", file="utils/crossovers.py", func="standard_crossover",
+         params=[("individs", "Tree2"), ("fitness", "Arr"), ("rank", "Arr"), ("max_level", "Int")], ret="Tree", streams=True,
+         tree_calls={"subtree": "Tree_subtree", "concat": "Tree_concat", "get_max_level": "Tree_get_max_level"}),
     # ---- the donor strategies of differential evolution: straight-line vector arithmetic (translated over the ring Int: the
     #      float operations are read as ring operations) on rows chosen by random_sample, which is a parameter taking
     #      the call's actual arguments and the call's ordinal: `sample range_size quantity replace k`
@@ -267,6 +275,8 @@ class Tr:
             if dotted is not None and dotted in self.self_attrs:
                 return self.self_attrs[dotted][1]
             return "Int"
+        if self.tree2(e) is not None:
+            return "Tree"
         if isinstance(e, ast.Subscript):
             if self.is_sample1(e):
                 return "Int"
@@ -285,7 +295,9 @@ class Tr:
             if isinstance(f, ast.Name) and f.id == "Tree":
                 return "Tree"
             if self.is_tree_call(e):
-                return "Arr" if f.attr == "get_args_id" else "Tree"
+                return {"get_args_id": "Arr", "get_max_level": "Int"}.get(f.attr, "Tree")
+            if isinstance(f, ast.Attribute) and isinstance(f.value, ast.Name) and f.value.id == "self" and f.attr in self.tree_methods:
+                return KERNEL_BY_NAME[self.tree_methods[f.attr]]["ret"]
             if is_np(f, "empty", "arange", "zeros", "empty_like", "array", "cumsum"):
                 return "Arr"
             if nm in ("sorted", "range"):
@@ -378,6 +390,26 @@ class Tr:
             _, nargs = self.tree_pair(e.func.value, env)
             t = self.tmp("Arr")
             lines.append(f"(match {self.tree_calls['get_args_id']} {self.E(e.args[0], env)} {nargs} with | some v => {{ s with {t} := v }} | none => {{ s with err := true }})")
+            env[id(e)] = f"s.{t}"
+            return
+        if self.is_tree_call(e, "get_max_level"):
+            if guarded:
+                raise NotRecognised(f"effectful call {ast.unparse(e)} under a short-circuit operator")
+            nodes, nargs = self.tree_pair(e.func.value, env)
+            t = self.tmp("Int")
+            lines.append(f"(match {self.tree_calls['get_max_level']} {nodes} {nargs} with | some v => {{ s with {t} := v }} | none => {{ s with err := true }})")
+            env[id(e)] = f"s.{t}"
+            return
+        if isinstance(e, ast.Call) and isinstance(e.func, ast.Attribute) and isinstance(e.func.value, ast.Name) and e.func.value.id == "self" \
+                and e.func.attr in self.tree_methods and self.self_tree:
+            for a in e.args:
+                self.hoist(a, lines, env, guarded)
+            if guarded:
+                raise NotRecognised(f"effectful call {ast.unparse(e)} under a short-circuit operator")
+            callee = self.tree_methods[e.func.attr]
+            t = self.tmp(KERNEL_BY_NAME[callee]["ret"])
+            args = " ".join(self.E(a, env) for a in e.args)
+            lines.append(f"(match {callee} self_nodes self_nargs {args} with | some v => {{ s with {t} := v }} | none => {{ s with err := true }})")
             env[id(e)] = f"s.{t}"
             return
         if self.is_randint1(e):
@@ -493,7 +525,16 @@ class Tr:
                 return f"s.{self.id(x)}__{a}"
         return None
 
+    def tree2(self, e):
+        """`P[k]` for a parameter P holding two trees and a literal k -> 'P_k', else None"""
+        if isinstance(e, ast.Subscript) and isinstance(e.value, ast.Name) and self.params.get(e.value.id) == "Tree2" \
+                and isinstance(e.slice, ast.Constant) and e.slice.value in (0, 1):
+            return f"{self.id(e.value.id)}_{e.slice.value}"
+        return None
+
     def is_tree_value(self, e):
+        if self.tree2(e) is not None:
+            return True
         if isinstance(e, ast.Name):
             return (e.id == "self" and self.self_tree) or self.params.get(e.id) == "Tree" or self.locals.get(e.id) == "Tree"
         return False
@@ -502,6 +543,8 @@ class Tr:
         """a Tree-valued expression as (nodes, nargs) Lean expressions"""
         if isinstance(e, ast.Call) and isinstance(e.func, ast.Attribute) and e.func.attr == "copy" and self.is_tree_value(e.func.value):
             e = e.func.value
+        if self.tree2(e) is not None:
+            return f"{self.tree2(e)}_nodes", f"{self.tree2(e)}_nargs"
         if isinstance(e, ast.Name) and self.is_tree_value(e):
             mk = lambda a: self.tree_attr(ast.Attribute(value=e, attr=a))
             return mk("_nodes"), mk("_n_args")
@@ -723,6 +766,8 @@ class Tr:
                     if t == "Mat":
                         return f"(({self.E(args[0], env)}).length : Int)"
                     return f"(Imp.leni {self.E(args[0], env)})"
+                if f.id == "max" and len(args) == 1 and self.ty(args[0]) == "Arr":
+                    return f"(Imp.maxArr {self.E(args[0], env)})"
                 if f.id in ("min", "max") and len(args) == 2:
                     return f"({f.id} {self.E(args[0], env)} {self.E(args[1], env)})"
                 if f.id == "int" and len(args) == 1:
@@ -815,6 +860,8 @@ class Tr:
         if isinstance(e, ast.Call) and id(e) in env:
             # a hoisted call: its arguments were evaluated before; their reads are checked where the call was hoisted
             return "false"
+        if isinstance(e, ast.Call) and isinstance(e.func, ast.Name) and e.func.id == "max" and len(e.args) == 1 and self._safe_ty(e.args[0]) == "Arr":
+            return bor(self.oob(e.args[0], env), f"({self.E(e.args[0], env)}).isEmpty")
         if isinstance(e, ast.BinOp) and isinstance(e.op, (ast.Add, ast.Sub)) and self._safe_ty(e) == "Arr":
             # elementwise operation: operands of different lengths are a shape error
             return bor(self.oob(e.left, env), self.oob(e.right, env), f"decide (Imp.leni {self.E(e.left, env)} ≠ Imp.leni {self.E(e.right, env)})")
@@ -1161,7 +1208,9 @@ class Tr:
             else:
                 allf2[n] = t
         fields = "".join(f"  {n} : {LTY[t]} := {DEFAULT[t]}\n" for n, t in sorted(allf2.items()))
-        params = " ".join((f"({self.id(n)}_nodes {self.id(n)}_nargs : List Int)" if t == "Tree" else f"({self.id(n)} : {LTY[t]})") for n, t in cfg["params"] if t != "Opaque")
+        params = " ".join((f"({self.id(n)}_nodes {self.id(n)}_nargs : List Int)" if t == "Tree" else
+                           f"({self.id(n)}_0_nodes {self.id(n)}_0_nargs {self.id(n)}_1_nodes {self.id(n)}_1_nargs : List Int)" if t == "Tree2" else
+                           f"({self.id(n)} : {LTY[t]})") for n, t in cfg["params"] if t != "Opaque")
         if self.self_tree:
             params = "(self_nodes self_nargs : List Int) " + params
         if self.self_state:
